@@ -10,7 +10,7 @@ CASE_TYPE = 'C19.case'
 EXTRA_IMPORTS = re_.RETRY_IMPORTS
 RULE = ('per-attempt outcomes {response ok, response with error (listed / unlisted code), transport exception (listed / subclass / '
         'unlisted), undecodable body, invalid response, identity mismatch, KeyboardInterrupt, asyncio.CancelledError} in every sequence '
-        'of length attempts+1 for strategies of 0..2 (quick) / 0..3 (thorough) attempts (plus no strategy), x 0..3 tracers (handed over as a list, a tuple, a generator or an iterator) x single / '
+        'of length attempts+1 for strategies of 0..2 (quick) / 0..3 (thorough) attempts (plus no strategy), x 0..3 tracers (every second one a falsy object; handed over as a list, a tuple, a generator or an iterator) x single / '
         'batch / notification x caller-supplied vs default trace context x sync / async; a quarter of the cases on a client that has already served a retried request. distinct = distinct full case; non-trivial = '
         'at least one tracer event')
 EXHAUSTIVE = {'quick': False, 'thorough': False}
@@ -19,7 +19,7 @@ ASSUMPTIONS = ['the transport behaves as scripted']
 
 OUT_SINGLE = [['ok'], ['code', 2000], ['code', 5], ['exc', 0], ['exc', 1], ['exc', 3], ['garbage'], ['invalid'], ['badid'], ['exc', 4], ['exc', 5]]
 OUT_NOTE = [['ok'], ['exc', 0], ['exc', 3], ['exc', 4], ['exc', 5]]
-OUT_BATCH = [['ok'], ['code', 2000], ['elemerr', 2000], ['exc', 0], ['garbage'], ['invalid'], ['exc', 5]]
+OUT_BATCH = [['ok'], ['code', 2000], ['elemerr', 2000], ['exc', 0], ['garbage'], ['invalid'], ['badid'], ['exc', 5]]
 LISTS = [([2000], [0]), ([2000], [9]), (None, [11]), ([2000, 5], [3])]
 
 
